@@ -89,19 +89,21 @@ def r2c_retain(ctx):
     shared = db.shared_by_name()
     n = 0
     fns = sorted({op.fn.id for m in shared for op in db.ops_by_map.get(m, []) if op.method == "get_mut"})
+    from ..facts import retain_sites, retain_predicate_shape
     for fid in fns:
         f = ctx.bin.fns[fid]
-        for bb, c in f.calls():
-            if c.get("res") != "std::vec::Vec::<T, A>::retain":
-                continue
-            held = db.lm.held.get(fid, {}).get(bb, frozenset())
-            maps = sorted(h[0].split(".")[-1] for h in held if h[0].split(".")[-1] in shared and h[1] == "X")
+        for host, bb, c in retain_sites(ctx.bin, f):
+            if host is f:
+                held = db.lm.held.get(fid, {}).get(bb, frozenset())
+                maps = sorted(h[0].split(".")[-1] for h in held if h[0].split(".")[-1] in shared and h[1] == "X")
+            else:
+                # the retain sits in a closure that is handed the guard (`map.get_mut(k).is_some_and(|mut v| { v.retain(..) })`)
+                maps = sorted(_guard_handed_to(ctx, db, f, host, shared))
             if not maps:
                 continue
             n += 1
             key = "R2c|%s|retain under %s" % (fid, ",".join(maps))
-            clos = [cid for cid, loc in c.get("clos", []) if loc and cid in ctx.bin.fns]
-            shp = closure_predicate_shape(ctx.bin, ctx.bin.fns[clos[0]]) if len(clos) == 1 else None
+            shp = retain_predicate_shape(ctx.bin, f, host, c)
             ok = False
             why = "predicate shape not recognised"
             if shp:
@@ -123,6 +125,32 @@ def r2c_retain(ctx):
                 r.violate(key, "%s at %s" % (why, ctx.bin.span_str(c["span"])))
     r.floor("retain sites under a shared-map guard", n, 2)
     return r
+
+
+def _guard_handed_to(ctx, db, f, host, shared):
+    """shared maps whose get_mut result (made in f) is the receiver of the call in f that is handed the closure `host`"""
+    from ..core import place_local, op_local
+    out = set()
+    for bb, c in f.calls():
+        if host.id not in [cid for cid, _l in c.get("clos", [])] or not c["args"]:
+            continue
+        recv = op_local(c["args"][0])
+        for m in shared:
+            for op in db.ops_by_map.get(m, []):
+                if op.fn.id == f.id and op.method == "get_mut" and recv is not None and place_local(op.call["dest"]) in _move_sources(f, recv):
+                    out.add(m)
+    return out
+
+
+def _move_sources(f, l, depth=0):
+    from ..core import op_local
+    out = {l}
+    if depth > 6:
+        return out
+    for d in f.whole_defs(l):
+        if d[0] == "assign" and d[3][0] == "use" and op_local(d[3][1]) is not None:
+            out |= _move_sources(f, op_local(d[3][1]), depth + 1)
+    return out
 
 
 def r2d_own_file_keys(ctx):
@@ -275,10 +303,6 @@ def r2g_canonicaliser_whole_path(ctx):
             continue
         n += 1
         calls = _slice_calls(crate, f, ["cp", 0])
-        # closures nested deeper than one level
-        for g in fam:
-            if g.id != f.id and any(g.id in x for x in calls) is False:
-                pass
         comp = sorted(x.split("::")[-1] for x in calls if re.search(r"path::Path::(join|with_file_name|with_extension)$|path::PathBuf::(push|set_file_name)$", x or ""))
         key = "R2g|%s" % f.id
         if comp:
@@ -286,4 +310,65 @@ def r2g_canonicaliser_whole_path(ctx):
         else:
             r.ok(sample={"canonicaliser": f.id, "calls_in_result_slice": len(calls)})
     r.floor("caching canonicalisers", n, 1)
+    return r
+
+
+def r2h_handlers_pass_canonical_paths(ctx):
+    r = Result("R2h", "every path a request handler (a function of the server type, its closures and async blocks) hands to a "
+                      "method of the fixture database originates from the Uri-to-path converter (which canonicalises), from a "
+                      "canonicalising function, or from the stored file_path of a record: the database keys documents by "
+                      "canonical path, so a raw `uri.to_file_path()` reads the on-disk text / misses the index under a symlink")
+    import re
+    db = _db(ctx)
+    crate = ctx.bin
+    canon = _canonicalizing_fns(ctx)
+    from ..facts import DB
+    # the server type, by role: the type the LanguageServer trait is implemented for
+    server = {m.group(1) for f in crate.real_fns() for m in [re.search(r"LanguageServer for ([A-Za-z0-9_:]+)>", f.id)] if m}
+    if len(server) != 1:
+        r.anchor_missing("server type", "no unique `impl LanguageServer for T`")
+        return r
+    server = server.pop()
+    r.counts["server_type"] = server
+    dbty = DB.split("::")[-1]
+    n = 0
+    walks = {}
+    for f in crate.real_fns():
+        root = crate.fns.get(f.root)
+        if root is None or not re.search(r"\b%s\b" % re.escape(server.split("::")[-1]), root.id):
+            continue
+        for bb, c in f.calls():
+            callee = c.get("res") or ""
+            if not c.get("res_local") or not re.search(r"\b%s\b" % dbty, callee) or callee in canon:
+                continue
+            g = crate.fns.get(callee)
+            if g is None:
+                continue
+            if callee not in walks:
+                walks[callee] = any((c2.get("res") or "").startswith("walkdir::") for x in ctx.callgraph().reach([callee])
+                                    if x in crate.fns for _b2, c2 in crate.fns[x].calls())
+            if walks[callee]:
+                continue  # the directory walk: its argument is a root to walk, not a document key
+            for i, a in enumerate(c["args"]):
+                ty = g.local_ty(i + 1) if i + 1 <= g.argc else ""
+                if not re.search(r"std::path::Path\b|std::path::PathBuf\b", ty):
+                    continue
+                n += 1
+                bad = []
+                for t in db.origins.of_operand(f, a):
+                    if t[0] == "call" and (t[2] in canon or re.search(r"Path::canonicalize$|fs::canonicalize$", t[2] or "")):
+                        continue
+                    fields = t[3] if len(t) > 3 and isinstance(t[3], tuple) else ()
+                    if any(nm == "file_path" for _o, nm in fields):
+                        continue
+                    if t[0] == "closure-param":
+                        continue
+                    bad.append("%s %s" % (t[0], (t[2] if t[0] == "call" else str(t[1])).split("::")[-1] if len(t) > 2 else t[1]))
+                key = "R2h|%s|%s arg%d" % (f.root, callee.split("::")[-1], i)
+                if bad:
+                    r.violate(key, "%s hands `%s` a path that is not canonical (%s) at %s" % (
+                        f.root, callee.split("::")[-1], sorted(set(bad))[:3], crate.span_str(c["span"])))
+                else:
+                    r.ok(sample={"call": key} if len(r.samples) < 4 else None)
+    r.floor("path arguments handed to the database by handlers", n, 10)
     return r
